@@ -189,8 +189,22 @@ func c11exec(c *h.Ctx, cs *h.Case) {
 			return t
 		}
 		t := fix.TokenFor(tree, root, uuid.New())
+		if k >= 1000 {
+			// the tree's id with a node id that is not in the tree: TransmitMsg refuses the message
+			t.TreeNodeID = onet.TreeNodeID(uuid.New())
+		} else if k >= 500 {
+			// a run of the protocol whose constructor returns an error
+			t = fix.FailTokenFor(t)
+		}
 		tokens[k] = t
 		return t
+	}
+	failing := func(k int) bool { return k >= 500 && k < 1000 }
+	// a failed construction must leave nothing listed: nobody holds the node, it can never declare itself done
+	checkFailed := func(k int) {
+		if tok, ok := tokens[k]; ok && failing(k) && ov.VerifInstanceState(tok) == "live" {
+			cs.Fail("failed-instance-stays-listed", fmt.Sprintf("the constructor of instance %d returned an error and its node is still listed (tree %s)", k, ov.VerifTreeState(tree.ID)))
+		}
 	}
 	slow := false
 	obs := func() string {
@@ -311,7 +325,7 @@ func c11exec(c *h.Ctx, cs *h.Case) {
 				cs.Impl = append(cs.Impl, "disabled")
 				return true
 			}
-			if tk[1] == "threadc" {
+			if tk[1] == "threadc" && k < 500 {
 				creates := ov.VerifInstanceState(tokOf(k)) == "none"
 				mu.Lock()
 				gate[tokOf(k).ID().String()] = key
@@ -353,6 +367,7 @@ func c11exec(c *h.Ctx, cs *h.Case) {
 			if !awaitFlushed() {
 				return false
 			}
+			checkFailed(k)
 			o := obs()
 			if wasDone {
 				mu.Lock()
@@ -395,6 +410,11 @@ func c11exec(c *h.Ctx, cs *h.Case) {
 				cs.Impl = append(cs.Impl, obs())
 				return true
 			}
+			if ok && failing(k) && ov.VerifInstanceState(tok) == "done" {
+				// the token of a failed construction is marked finished; there is no instance to call Done() on
+				cs.Impl = append(cs.Impl, obs())
+				return true
+			}
 			if !ok || ov.VerifInstanceState(tok) != "live" || fix.RecOf(tok) == nil {
 				cs.Impl = append(cs.Impl, "disabled")
 				return true
@@ -421,6 +441,10 @@ func c11exec(c *h.Ctx, cs *h.Case) {
 				tni.OnDoneCallback(func() bool { return true })
 				tni.Done()
 				tni.OnDoneCallback(nil)
+				cs.Impl = append(cs.Impl, obs())
+				return true
+			}
+			if ok && agree && failing(k) && ov.VerifInstanceState(tok) == "done" {
 				cs.Impl = append(cs.Impl, obs())
 				return true
 			}
@@ -506,8 +530,28 @@ func c11exec(c *h.Ctx, cs *h.Case) {
 			cs.Impl = append(cs.Impl, obs())
 		case len(tk) == 3 && tk[1] == "localstart":
 			k, _ := strconv.Atoi(tk[2])
-			if _, ok := tokens[k]; ok {
+			if _, ok := tokens[k]; ok || k >= 1000 {
 				cs.Impl = append(cs.Impl, "disabled")
+				return true
+			}
+			if failing(k) {
+				// CreateProtocol with a constructor that returns an error: the caller gets the error and no instance
+				if _, err := cl.L.CreateProtocol(fix.FailProtoName, tree); err == nil {
+					cs.Fail("constructor-error-swallowed", "CreateProtocol returned no error although the constructor did")
+				}
+				tok := fix.LastFailedToken()
+				if tok == nil {
+					cs.Impl = append(cs.Impl, "err")
+					cs.Fail("constructor-not-run", "CreateProtocol did not call the constructor")
+					return true
+				}
+				tokens[k] = tok
+				everUsed[k] = true
+				if !awaitFlushed() {
+					return false
+				}
+				checkFailed(k)
+				cs.Impl = append(cs.Impl, obs())
 				return true
 			}
 			pi, err := cl.L.CreateProtocol(fix.ProtoName, tree)
@@ -645,6 +689,18 @@ func c11gen(c *h.Ctx, yield func(*h.Case)) {
 	// … an arrival that looked the tree up before it was released stores it again while another message is parked
 	// (before /repo fafcac0 that message stayed parked for ever)
 	yield(&h.Case{Class: "corpus-parked", Ops: []string{"c11 localstart 1", "c11 arrive 2 5", "c11 done 1", "c11 wait", "c11 arrive 3 6", "c11 thread 2 5", "c11 treeresp", "c11 thread 3 6", "c11 done 2"}})
+	// a message whose token names a node that is not in the tree, during the grace period (before the repair of
+	// round 5 its lookup cancelled the removal for ever); while an instance is listed; parked first
+	yield(&h.Case{Class: "corpus-bad-node", Ops: []string{"c11 localstart 1", "c11 done 1", "c11 arrive 1000 5", "c11 thread 1000 5"}})
+	yield(&h.Case{Class: "corpus-bad-node", Ops: []string{"c11 localstart 1", "c11 arrive 1000 5", "c11 thread 1000 5", "c11 peerreq", "c11 done 1", "c11 arrive 1001 6", "c11 thread 1001 6", "c11 peerreq"}})
+	yield(&h.Case{Class: "corpus-bad-node", Ops: []string{"c11 localstart 1", "c11 done 1", "c11 wait", "c11 arrive 1000 5", "c11 treeresp", "c11 thread 1000 5"}})
+	// a constructor that returns an error: local start (the node stayed listed for ever before the repair of round 5),
+	// also while another instance uses the tree (which must stay); an arrival, alone and during the grace period;
+	// late messages for the failed token
+	yield(&h.Case{Class: "corpus-failed-ctor", Ops: []string{"c11 localstart 500"}})
+	yield(&h.Case{Class: "corpus-failed-ctor", Ops: []string{"c11 localstart 1", "c11 localstart 500", "c11 wait", "c11 peerreq", "c11 arrive 1 5", "c11 thread 1 5", "c11 done 500", "c11 done 1"}})
+	yield(&h.Case{Class: "corpus-failed-ctor", Ops: []string{"c11 localstart 1", "c11 arrive 500 5", "c11 thread 500 5", "c11 arrive 500 6", "c11 thread 500 6", "c11 wait", "c11 peerreq", "c11 done 1"}})
+	yield(&h.Case{Class: "corpus-failed-ctor", Ops: []string{"c11 localstart 1", "c11 done 1", "c11 arrive 501 5", "c11 thread 501 5", "c11 peerreq"}})
 	for n := 0; n < c.Pick(28, 400); n++ {
 		cs := &h.Case{Class: "random"}
 		m := 0
@@ -681,8 +737,13 @@ func c11gen(c *h.Ctx, yield func(*h.Case)) {
 				maybeAbsent = false
 				c.Count("op=arrive-maybe-absent")
 			case maybeAbsent || x == 0:
-				cs.Ops = append(cs.Ops, fmt.Sprintf("c11 localstart %d", next))
-				known = append(known, next)
+				k := next
+				if r.Intn(6) == 0 {
+					k = 500 + next // the constructor fails
+					c.Count("op=localstart-failing")
+				}
+				cs.Ops = append(cs.Ops, fmt.Sprintf("c11 localstart %d", k))
+				known = append(known, k)
 				next++
 				maybeAbsent = false
 			case x < 5:
@@ -691,7 +752,15 @@ func c11gen(c *h.Ctx, yield func(*h.Case)) {
 				if len(known) > 0 && r.Intn(4) > 0 {
 					k = known[r.Intn(len(known))]
 				} else {
-					known = append(known, next)
+					switch r.Intn(8) {
+					case 0:
+						k = 500 + next // the constructor fails
+						c.Count("op=arrive-failing-ctor")
+					case 1:
+						k = 1000 + next // names no node of the tree
+						c.Count("op=arrive-bad-node")
+					}
+					known = append(known, k)
 					next++
 				}
 				pending[m] = k
